@@ -217,10 +217,10 @@ func (ex *Exec) lookup(st *State, t *ssa.Lookup) {
 	vs := st.u().sortOf(mt.Elem())
 	d, vf, _ := st.mapFamsT(mt)
 	st.sc.ensureSort(vs)
-	present := and(neq(m, intLit(0)), st.readFam(st.heap, d, m, idx))
-	raw := st.readFam(st.heap, vf, m, idx)
+	present := st.readFam(st.heap, d, m, idx)
+	_ = vf
 	val := st.sc.fresh("lookup", vs)
-	st.sc.assert(eq(val, ite(present, raw, st.u().zero(vs))))
+	st.sc.assert(eq(val, st.mapRead(st.heap, mt, m, idx)))
 	st.assumeWellFormed(val, mt.Elem())
 	if t.CommaOk {
 		st.tuples[t] = []Term{val, present}
@@ -527,7 +527,7 @@ func (ex *Exec) next(st *State, t *ssa.Next) {
 		it.StartDom = st.heap[d.Name]
 	}
 	ok := st.sc.fresh("next_ok", SBool)
-	mlen := ite(eq(it.Map, intLit(0)), intLit(0), st.readFam(st.heap, lf, it.Map))
+	mlen := st.readFam(st.heap, lf, it.Map)
 	// a range over an unmodified map produces every key exactly once
 	st.sc.assert(and(le(intLit(0), it.Count), ite(ok, lt(it.Count, mlen), eq(it.Count, mlen))))
 	nc := st.sc.fresh("itercount", SInt)
@@ -535,10 +535,10 @@ func (ex *Exec) next(st *State, t *ssa.Next) {
 	it.Count = nc
 	k := st.sc.fresh("next_k", it.KSort)
 	st.assumeWellFormed(k, it.MapType.Key())
-	inDom := and(neq(it.Map, intLit(0)), st.readFam(st.heap, d, it.Map, k))
+	inDom := st.readFam(st.heap, d, it.Map, k)
 	// ok: k is an unvisited key; !ok: every key has been visited
 	st.sc.assert(implies(ok, and(inDom, not(app(SBool, it.Visited, k)))))
-	st.sc.emit("(assert (=> (not %s) (forall ((k %s)) (! (=> (and (not (= %s 0)) (%s %s k)) (%s k)) :pattern ((%s %s k))))))", ok.S, it.KSort, it.Map.S, st.heap[d.Name], it.Map.S, it.Visited, st.heap[d.Name], it.Map.S)
+	st.sc.emit("(assert (=> (not %s) (forall ((k %s)) (! (=> (%s %s k) (%s k)) :pattern ((%s %s k))))))", ok.S, it.KSort, st.heap[d.Name], it.Map.S, it.Visited, st.heap[d.Name], it.Map.S)
 	v := st.sc.fresh("next_v", it.VSort)
 	st.sc.assert(implies(ok, eq(v, st.readFam(st.heap, vf, it.Map, k))))
 	st.assumeWellFormed(v, it.MapType.Elem())
